@@ -344,6 +344,9 @@ pub fn run(args: &[String]) -> i32 {
     rep.cov("dictionary", json!({"identifiers": dict_n, "comparisons": st.0, "oracle_undefined": st.1}));
     rep.cov_add("evaluations", st.0);
     rep.cov_add("distinct_nontrivial", st.2.len() as u64);
+    if thorough {
+        bind_oracle_to_serde_derive(&mut rep);
+    }
     rep.cov("exhaustive", json!(true));
     rep.cov(
         "rule",
@@ -352,4 +355,118 @@ pub fn run(args: &[String]) -> i32 {
     rep.assume("oracle = serde_derive 1.0.214 internals/case.rs vendored verbatim (mc/vendor/serde_case.rs); cases where serde itself panics are skipped and counted");
     rep.assume("identifiers that are not legal Rust identifiers cannot be field/variant names and are out of scope");
     rep.finish()
+}
+
+// ------------------------------------------------------------------------------------------------
+// E4 binding of the oracle: the vendored case.rs must agree with the *compiled* serde_derive
+// ------------------------------------------------------------------------------------------------
+
+/// Renders every (identifier, rule, position) for which the vendored model defines a name as a
+/// `#[derive(Serialize)]` type, builds the crate(s) once with the real serde_derive and compares the
+/// key / variant name serde_json prints with the vendored model. Returns (cases, mismatches).
+pub fn bind_oracle_to_serde_derive(rep: &mut Report) {
+    use std::process::Command;
+    let mut idents: Vec<String> = Vec::new();
+    // every legal identifier of length ≤ 3 over the class representatives + the dictionaries
+    for len in 1..=3usize {
+        let n = ALPHA_SHORT.len();
+        for mut k in 0..n.pow(len as u32) {
+            let mut s = String::new();
+            for _ in 0..len {
+                s.push(ALPHA_SHORT[k % n]);
+                k /= n;
+            }
+            if is_ident(&s) {
+                idents.push(s);
+            }
+        }
+    }
+    for file in ["idents_fields.txt", "idents_variants.txt"] {
+        if let Ok(t) = std::fs::read_to_string(format!("{}/mc/data/{file}", report::VERIF)) {
+            idents.extend(t.lines().filter(|l| !l.is_empty()).map(String::from));
+        }
+    }
+    idents.sort();
+    idents.dedup();
+    struct B {
+        ident: String,
+        rule: &'static str,
+        variant: bool,
+        expect: String,
+    }
+    let mut cases: Vec<B> = Vec::new();
+    for id in &idents {
+        if spell(id).is_none() {
+            continue;
+        }
+        for rule in &RULES[..8] {
+            for variant in [false, true] {
+                if let Some(expect) = serde_name(rule, id, variant) {
+                    cases.push(B { ident: id.clone(), rule, variant, expect });
+                }
+            }
+        }
+    }
+    const NB: usize = 16;
+    let dir = std::path::PathBuf::from("/verif/target/e4/c16_bind");
+    let _ = std::fs::remove_dir_all(&dir);
+    std::fs::create_dir_all(&dir).unwrap();
+    let members: Vec<String> = (0..NB).map(|i| format!("\"bin_{i}\"")).collect();
+    std::fs::write(dir.join("Cargo.toml"), format!("[workspace]\nresolver = \"2\"\nmembers = [{}]\n\n[profile.dev]\ndebug = false\nincremental = false\n", members.join(", "))).unwrap();
+    let _ = std::fs::copy("/repo/Cargo.lock", dir.join("Cargo.lock"));
+    for b in 0..NB {
+        let bdir = dir.join(format!("bin_{b}"));
+        std::fs::create_dir_all(bdir.join("src")).unwrap();
+        std::fs::write(bdir.join("Cargo.toml"), format!("[package]\nname = \"c16_bind_{b}\"\nversion = \"0.1.0\"\nedition = \"2021\"\n\n[dependencies]\nserde = {{ version = \"1\", features = [\"derive\"] }}\nserde_json = \"1\"\n")).unwrap();
+        let mut src = String::from("#![allow(non_snake_case, non_camel_case_types, dead_code, uncommon_codepoints, mixed_script_confusables, confusable_idents)]\nuse serde::Serialize;\n");
+        let mut main = String::from("fn main() {\n");
+        for (i, c) in cases.iter().enumerate().filter(|(i, _)| i % NB == b) {
+            let sp = spell(&c.ident).unwrap();
+            if c.variant {
+                src.push_str(&format!("#[derive(Serialize)]\n#[serde(rename_all = \"{}\")]\nenum T{i} {{ {sp} }}\n", c.rule));
+                main.push_str(&format!("    println!(\"{i}\\t{{}}\", serde_json::to_string(&T{i}::{sp}).unwrap());\n"));
+            } else {
+                src.push_str(&format!("#[derive(Serialize)]\n#[serde(rename_all = \"{}\")]\nstruct T{i} {{ {sp}: u8 }}\n", c.rule));
+                main.push_str(&format!("    println!(\"{i}\\t{{}}\", serde_json::to_string(&T{i} {{ {sp}: 0 }}).unwrap());\n"));
+            }
+        }
+        main.push_str("}\n");
+        std::fs::write(bdir.join("src/main.rs"), format!("{src}\n{main}")).unwrap();
+    }
+    let out = Command::new("cargo")
+        .args(["build", "--offline", "--quiet", "--workspace", "--message-format", "short"])
+        .current_dir(&dir)
+        .env("CARGO_TARGET_DIR", "/verif/target/e4/target")
+        .env("CARGO_NET_OFFLINE", "true")
+        .env("RUSTFLAGS", "-Awarnings -Ccodegen-units=4")
+        .output();
+    let ok = out.as_ref().map(|o| o.status.success()).unwrap_or(false);
+    if !ok {
+        let log = out.map(|o| String::from_utf8_lossy(&o.stderr).chars().take(1500).collect::<String>()).unwrap_or_default();
+        rep.machinery(format!("serde binding crate does not build (the vendored model claims a name where serde_derive fails?):\n{log}"));
+        return;
+    }
+    let mut judged = 0u64;
+    let mut mismatches = 0u64;
+    for b in 0..NB {
+        let Ok(r) = Command::new(format!("/verif/target/e4/target/debug/c16_bind_{b}")).output() else { continue };
+        for l in String::from_utf8_lossy(&r.stdout).lines() {
+            let Some((i, json)) = l.split_once('\t') else { continue };
+            let Ok(i) = i.parse::<usize>() else { continue };
+            let c = &cases[i];
+            // struct: {"key":0}   enum: "name"
+            let v: serde_json::Value = serde_json::from_str(json).unwrap_or(serde_json::Value::Null);
+            let got = if c.variant { v.as_str().map(String::from) } else { v.as_object().and_then(|o| o.keys().next().cloned()) };
+            judged += 1;
+            if got.as_deref() != Some(c.expect.as_str()) {
+                mismatches += 1;
+                rep.machinery(format!("vendored case.rs disagrees with compiled serde_derive: {} {} {} -> model {:?}, serde {:?}", c.ident, c.rule, if c.variant { "variant" } else { "field" }, c.expect, got));
+            }
+        }
+    }
+    let _ = std::fs::remove_dir_all(&dir);
+    if judged != cases.len() as u64 {
+        rep.machinery(format!("serde binding: {judged} of {} cases reported", cases.len()));
+    }
+    rep.cov("oracle_bound_to_compiled_serde_derive", json!({"identifiers": idents.len(), "types_compiled": cases.len(), "compared": judged, "mismatches": mismatches, "serde_derive": "1.0.214 (cargo cache, as in /repo/Cargo.lock)"}));
 }
